@@ -2494,6 +2494,10 @@ class Interp:
                     obj.fields[n] = default() if callable(default) and getattr(default, "__pyvc_factory__", False) else default
             for n, default in _noninit_defaults(cls):
                 obj.fields[n] = default() if callable(default) and getattr(default, "__pyvc_factory__", False) else default
+            post = getattr(cls, "__attrs_post_init__", None) if hasattr(cls, "__attrs_attrs__") else getattr(cls, "__post_init__", None)
+            if post is not None and inspect.isfunction(post) and (getattr(post, "__module__", "") or "").startswith(
+                    ("pyvcfrag_", "openapi_python_client")):
+                self.call_pyfunc(post, [obj], {})
             return obj
         raise Unsupported(f"cannot construct {cls.__name__}")
 
